@@ -5,6 +5,9 @@
   handles forgotten) and `Model/FspecSpec2.lean` (`specReplaceX`, `specClone`, `specMapInsert`,
   `specMapRemove`, `specSetValue`, `specTextContentSet`); proofs are in `Lemmas/Fspec*.lean`
   (`clone_node` rests on the C12 development, the map updates on the C11 development).
+  The PAIR reading (`Model/FspecSpec3.lean`, `FspecSpec4.lean`: `specMoveP`, `specRemoveP`, `specDetachP`,
+  `specUnwrapP`, `specReplaceP` / `specReplaceK`) is proved for EVERY forest with the invariant
+  (`Lemmas/FspecPair*.lean`, `Lemmas/FspecAll*.lean`); see the last sections.
 -/
 import XotModel.Model.FspecSpec
 import XotModel.Lemmas.ForestBasic
@@ -27,6 +30,11 @@ import XotModel.Lemmas.FspecPairAfter3
 import XotModel.Lemmas.FspecPairBefore4
 import XotModel.Lemmas.FspecPairString
 import XotModel.Lemmas.FcreationSpec
+import XotModel.Model.FspecSpec4
+import XotModel.Lemmas.FspecAllUnwrap
+import XotModel.Lemmas.FspecAllNormal
+import XotModel.Lemmas.FspecAllRepl6
+import XotModel.Lemmas.FspecAllFrame2
 
 namespace XotModel.Props
 open XotModel XotModel.Spec
@@ -628,7 +636,8 @@ example :
   Since xot eccbbb7 it takes the node's own sibling there, and `append` / `insert_before` are the
   specification in that corner too (`C05_pair_append`, `C05_pair_insertBefore`,
   `C05_selfMerge_append`, `C05_selfMerge_insertBefore`, closed examples below).
-  `element_unwrap`, `element_wrap` and `replace` are proved under `Forest.Normal` only. -/
+  `element_unwrap`, `element_wrap` and `replace` on such forests: section "The composite calls on
+  every forest" at the end of this file. -/
 
 theorem C05_pair_remove {f : Forest} {n : Nat} (inv : f.Inv) (live : f.isLive n = true) :
     (f.remove n).1 = specRemoveP n f :=
@@ -939,6 +948,228 @@ example :
       (f.appendText 0 ['c']).1.isLive 5 = false ∧
       (f.appendText 1 ['c']).2 = .err .invalidOperation ∧ (f.appendText 1 ['c']).1 = (f.newText ['c']).1 ∧
       (f.appendNamespace 0 2 3).2 = (.ok, 5) ∧ (f.appendNamespace 0 2 3).1 = specMapInsert .namespaces 0 (.namespace 2 3) f := by
+  decide
+
+/-! ### The two readings agree on forests without adjacent text nodes
+
+  Specification against specification (no model function involved): on a forest with `Forest.Inv`
+  and `Forest.Normal` the pair reading `specMoveP` IS the whole-run reading `specMove` with xot's
+  survivor rule — for every live node `c` and every destination whose parent `q` is not a text
+  node and does not lie in the moved subtree (for `after` / `before`: a reference node other than
+  `c`); in particular for every move that passes xot's argument checks. -/
+
+theorem C05_specMoveP_eq_specMove_on_normal {f : Forest} {dest : Dest} {c : Nat} {t : HTree} {q : Nat}
+    {vq : Value} {Lq : List HTree} (inv : f.Inv) (norm : f.Normal) (hgc : f.get? c = some t)
+    (sq : SiteAt f q vq Lq) (hqt : q ∉ HTree.handles t) (hvq : vq.isText = false) (hsite : dest.site f = some q)
+    (hrefc : ∀ x, (dest = .after x ∨ dest = .before x) → x ≠ c) :
+    specMoveP dest c f = specMove (Keep.resident c) dest c f :=
+  PairAll.specMoveP_eq_specMove inv norm hgc sq hqt hvq hsite hrefc
+
+/-- … for `append` / `prepend`, from `add_structure_check`. -/
+theorem C05_specMoveP_eq_specMove_under {f : Forest} {p c : Nat} (inv : f.Inv) (norm : f.Normal)
+    (hsc : f.structureCheck (some p) c = true) :
+    specMoveP (.lastChildOf p) c f = specMove (Keep.resident c) (.lastChildOf p) c f ∧
+    specMoveP (.firstNormalChildOf p) c f = specMove (Keep.resident c) (.firstNormalChildOf p) c f :=
+  specMoveP_eq_specMove_under inv norm hsc
+
+/-- … for `insert_after` / `insert_before`, from `add_structure_check` and `sibling_reference_check`. -/
+theorem C05_specMoveP_eq_specMove_beside {f : Forest} {r c : Nat} (inv : f.Inv) (norm : f.Normal)
+    (hsc : f.structureCheck (f.parent? r) c = true) (hsr : f.siblingReferenceCheck r c = true) :
+    specMoveP (.after r) c f = specMove (Keep.resident c) (.after r) c f ∧
+    specMoveP (.before r) c f = specMove (Keep.resident c) (.before r) c f :=
+  specMoveP_eq_specMove_beside inv norm hsc hsr
+
+/-- … and for `remove` (either survivor rule). -/
+theorem C05_specRemoveP_eq_specRemove_on_normal {f : Forest} {n : Nat} {t : HTree} (inv : f.Inv) (norm : f.Normal)
+    (hg : f.get? n = some t) :
+    specRemoveP n f = specRemove Keep.earlier n f ∧ specRemoveP n f = specRemove (Keep.resident n) n f :=
+  ⟨specRemoveP_eq_specRemove inv norm (Keep.earlier_spec n) hg, specRemoveP_eq_specRemove inv norm (Keep.resident_spec n) hg⟩
+
+/-- … and for `detach`. -/
+theorem C05_specDetachP_eq_specDetach_on_normal {f : Forest} {n : Nat} {t : HTree} (inv : f.Inv) (norm : f.Normal)
+    (hg : f.get? n = some t) : specDetachP n f = specDetach Keep.earlier n f :=
+  specDetachP_eq_specDetach inv norm (Keep.earlier_spec n) hg
+
+/-- Non-vacuity: `<a>x<b/>y</a><c>z</c>` (no adjacent text), `b` moved behind `z`: both readings
+    give `<a>xy</a><c>z<b/></c>`. -/
+example :
+    let f : Forest := { roots := [.node 0 (.element 2) [.node 1 (.text ['x']) [], .node 2 (.element 3) [],
+        .node 3 (.text ['y']) []], .node 4 (.element 6) [.node 5 (.text ['z']) []]], next := 6 }
+    f.inv = true ∧ f.structureCheck (f.parent? 5) 2 = true ∧ f.siblingReferenceCheck 5 2 = true ∧
+      specMoveP (.after 5) 2 f = specMove (Keep.resident 2) (.after 5) 2 f ∧
+      (specMoveP (.after 5) 2 f).content = [.node (.element 2) [.node (.text ['x', 'y']) []],
+        .node (.element 6) [.node (.text ['z']) [], .node (.element 3) []]] := by
+  decide
+
+/-! ### The composite calls on every forest (adjacent text nodes allowed)
+
+  `Model/FspecSpec4.lean`: `specUnwrapP` — the wrapper is replaced by its normal children and exactly
+  the pairs that have become adjacent are merged (left neighbour / first child, last child / right
+  neighbour, and the two neighbours when nothing is left between them); `specWrap` merges nothing, so
+  it is its own pair reading; `specReplaceP` — the replacing node leaves (pair merge at the place it
+  leaves), the replaced subtree disappears, the replacing node takes its place and is merged with
+  its new left neighbour, else its right one, and in the first case the left neighbour then with the
+  right one (three-way).  All for EVERY forest with `Forest.Inv`, no `Forest.Normal`. -/
+
+/-- `element_unwrap`, pair reading, every forest with the invariant, handle for handle. -/
+theorem C05_pair_unwrap {f : Forest} {n : Nat} (inv : f.Inv) (hok : (f.elementUnwrap n).2 = .ok) :
+    (f.elementUnwrap n).1 = specUnwrapP n f :=
+  unwrap_pair inv hok
+
+/-- `element_wrap`: exactly one new element, nothing merged — without `Forest.Normal`. -/
+theorem C05_pair_wrap {f : Forest} {n name : Nat} (inv : f.Inv) (hok : (f.elementWrap n name).2.1 = .ok) :
+    (f.elementWrap n name).1 = specWrap n name f ∧ (f.elementWrap n name).2.2 = f.next := by
+  cases hpar : f.parent? n with
+  | none => exact wrap_spec_root inv hpar hok
+  | some p => exact wrap_spec_kid inv hpar hok
+
+/-- `replace`, handle for handle, every forest with the invariant, every geometry: the call is
+    `specReplaceK` — the pair reading in which the LAST merge is stated for the two former neighbours
+    of the replaced node by identity. -/
+theorem C05_pair_replace_code {f : Forest} {a b : Nat} (inv : f.Inv) (hok : (f.replace a b).2 = .ok) :
+    (f.replace a b).1 = specReplaceK a b f :=
+  replace_pairK inv hok
+
+/-- Outside the corner `selfMergeReplace` that is the pair reading the property demands. -/
+theorem C05_specReplaceK_eq_specReplaceP {f : Forest} {a b : Nat} (inv : f.Inv) (hok : (f.replace a b).2 = .ok)
+    (hcorner : selfMergeReplace f a b = false) : specReplaceK a b f = specReplaceP a b f :=
+  specReplaceK_eq_specReplaceP inv hok hcorner
+
+/-- The full-strength statement (false of the code, see the witness below). -/
+def C05_pair_replaceStatement : Prop :=
+  ∀ (f : Forest) (a b : Nat), f.Inv → (f.replace a b).2 = .ok → (f.replace a b).1 = specReplaceP a b f
+
+/-- `replace` against the pair reading of the property; the extra hypothesis is exactly the boundary
+    of finding `C05:replace-selfmerge-leaves-adjacent-text`. -/
+theorem C05_pair_replace_partial {f : Forest} {a b : Nat} (inv : f.Inv) (hok : (f.replace a b).2 = .ok)
+    (hcorner : selfMergeReplace f a b = false) : (f.replace a b).1 = specReplaceP a b f :=
+  replace_pair_partial inv hok hcorner
+
+/-- `<e>x b p <a/> z</e>` with the text nodes `x`, `b`, `p`, `z` separate (consolidation was off when
+    they were appended, and is on again). -/
+def selfReplaceWitness : Forest :=
+  { roots := [.node 0 (.element 2) [.node 1 (.text ['x']) [], .node 2 (.text ['b']) [], .node 3 (.text ['p']) [],
+      .node 4 (.element 3) [], .node 5 (.text ['z']) []]], next := 6, consolidation := true, everOff := true }
+
+/-- The corner: `replace(a, b)`.  `b` leaves: `x` and `p` are merged (`p` disappears); `b`, put in the
+    place of `a`, is merged into `x` — which now stands next to `z`.  xot remembered `p`, finds it
+    removed and stops: the result holds the adjacent text nodes `xpb` and `z`, which BECAME adjacent in
+    this call.  In the ordinary geometry (`b` elsewhere) xot does merge the three (`x`, `pbz`). -/
+theorem C05_replace_selfmerge_witness :
+    selfReplaceWitness.inv = true ∧ (selfReplaceWitness.replace 4 2).2 = .ok ∧
+    selfMergeReplace selfReplaceWitness 4 2 = true ∧
+    (selfReplaceWitness.replace 4 2).1.content =
+      [.node (.element 2) [.node (.text ['x', 'p', 'b']) [], .node (.text ['z']) []]] ∧
+    (selfReplaceWitness.replace 4 2).1 = specReplaceK 4 2 selfReplaceWitness ∧
+    (specReplaceP 4 2 selfReplaceWitness).content = [.node (.element 2) [.node (.text ['x', 'p', 'b', 'z']) []]] ∧
+    (selfReplaceWitness.replace 4 2).1 ≠ specReplaceP 4 2 selfReplaceWitness ∧
+    (let g : Forest := { selfReplaceWitness with roots := [.node 0 (.element 2) [.node 1 (.text ['x']) [],
+        .node 3 (.text ['p']) [], .node 4 (.element 3) [], .node 5 (.text ['z']) []], .node 2 (.text ['b']) []] }
+     (g.replace 4 2).2 = .ok ∧ selfMergeReplace g 4 2 = false ∧
+     (g.replace 4 2).1.content = [.node (.element 2) [.node (.text ['x']) [], .node (.text ['p', 'b', 'z']) []]] ∧
+     (g.replace 4 2).1 = specReplaceP 4 2 g) := by
+  decide
+
+theorem C05_pair_replace_statement_false : ¬ C05_pair_replaceStatement := by
+  intro h
+  have := h selfReplaceWitness 4 2 ((Forest.inv_iff _).1 (by decide)) (by decide)
+  exact absurd this (by decide)
+
+/-- Non-vacuity on a forest WITH adjacent text nodes: `<e>w x <u>i j<k/>m</u> y z <v/></e>` and a
+    parentless text `r`.  `element_unwrap(u)` merges exactly `(x, i)` and `(m, y)` — `w`, `j`, `z` stay;
+    `element_wrap(x)` merges nothing; `replace(v, r)` merges `r` into `z` only; `replace(u, r)` gives
+    the three-way merge of `x`, `r`, `y` and leaves `w`, `z`. -/
+example :
+    let f : Forest := { roots := [.node 0 (.element 2) [.node 1 (.text ['w']) [], .node 2 (.text ['x']) [],
+        .node 3 (.element 3) [.node 4 (.text ['i']) [], .node 5 (.text ['j']) [], .node 6 (.element 6) [],
+          .node 7 (.text ['m']) []],
+        .node 8 (.text ['y']) [], .node 9 (.text ['z']) [], .node 10 (.element 6) []], .node 11 (.text ['r']) []],
+                        next := 12, consolidation := true, everOff := true }
+    f.inv = true ∧
+      (f.elementUnwrap 3).2 = .ok ∧ (f.elementUnwrap 3).1 = specUnwrapP 3 f ∧
+      (f.elementUnwrap 3).1.content = [.node (.element 2) [.node (.text ['w']) [], .node (.text ['x', 'i']) [],
+        .node (.text ['j']) [], .node (.element 6) [], .node (.text ['m', 'y']) [], .node (.text ['z']) [],
+        .node (.element 6) []], .node (.text ['r']) []] ∧
+      (f.elementUnwrap 3).1 ≠ specUnwrap Keep.earlier 3 f ∧
+      (f.elementWrap 2 6).2.1 = .ok ∧ (f.elementWrap 2 6).1 = specWrap 2 6 f ∧
+      (f.replace 10 11).2 = .ok ∧ selfMergeReplace f 10 11 = false ∧ (f.replace 10 11).1 = specReplaceP 10 11 f ∧
+      (f.replace 10 11).1.value? 9 = some (.text ['z', 'r']) ∧ (f.replace 10 11).1.isLive 8 = true ∧
+      (f.replace 3 11).2 = .ok ∧ (f.replace 3 11).1 = specReplaceP 3 11 f ∧
+      (f.replace 3 11).1.content = [.node (.element 2) [.node (.text ['w']) [], .node (.text ['x', 'r', 'y']) [],
+        .node (.text ['z']) [], .node (.element 6) []]] := by
+  decide
+
+/-! ### The frame theorems without `Forest.Normal`
+
+  For EVERY forest with the invariant: a node outside the moved subtree whose parent is neither
+  the parent the subtree leaves nor the one it arrives at keeps its parent, its value and the
+  handles of its left and right siblings (`HTree.Ctx.shape`).  From the frame of the pair reading
+  (`C05_frame_specMoveP`, `C05_frame_specRemoveP`) and the pair theorems. -/
+
+theorem C05_frame_specMoveP {f : Forest} {dest : Dest} {c : Nat} {t : HTree} {q : Nat} {vq : Value}
+    {Lq : List HTree} (inv : f.Inv) (hgc : f.get? c = some t) (sq : SiteAt f q vq Lq) (hqt : q ∉ HTree.handles t)
+    (hvq : vq.isText = false) (hsite : dest.site f = some q)
+    {x : Nat} {cx : HTree.Ctx} (hx : f.ctx? x = some cx)
+    (h1 : cx.parent ≠ q) (h2 : some cx.parent ≠ f.parent? c) (h3 : cx.parent ∉ HTree.handles t)
+    (h4 : x ∉ HTree.handles t) :
+    ∃ cx', (specMoveP dest c f).ctx? x = some cx' ∧ cx'.shape = cx.shape :=
+  frame_specMoveP inv hgc sq hqt hvq hsite hx h1 h2 h3 h4
+
+theorem C05_frame_specRemoveP {f : Forest} {n : Nat} {t : HTree} (inv : f.Inv)
+    (hg : f.get? n = some t) {x : Nat} {cx : HTree.Ctx} (hx : f.ctx? x = some cx)
+    (h1 : some cx.parent ≠ f.parent? n) (h3 : cx.parent ∉ HTree.handles t) (h4 : x ∉ HTree.handles t) :
+    ∃ cx', (specRemoveP n f).ctx? x = some cx' ∧ cx'.shape = cx.shape :=
+  frame_specRemoveP inv hg hx h1 h3 h4
+
+theorem C05_pair_frame_append {f : Forest} {p c : Nat} {t : HTree} (inv : f.Inv)
+    (hok : (f.append p c).2 = .ok) (hgc : f.get? c = some t)
+    {x : Nat} {cx : HTree.Ctx} (hx : f.ctx? x = some cx)
+    (h1 : cx.parent ≠ p) (h2 : some cx.parent ≠ f.parent? c) (h3 : cx.parent ∉ HTree.handles t)
+    (h4 : x ∉ HTree.handles t) :
+    ∃ cx', (f.append p c).1.ctx? x = some cx' ∧ cx'.shape = cx.shape :=
+  append_frame_all inv hok hgc hx h1 h2 h3 h4
+
+theorem C05_pair_frame_prepend {f : Forest} {p c : Nat} {t : HTree} (inv : f.Inv)
+    (hok : (f.prepend p c).2 = .ok) (hgc : f.get? c = some t)
+    {x : Nat} {cx : HTree.Ctx} (hx : f.ctx? x = some cx)
+    (h1 : cx.parent ≠ p) (h2 : some cx.parent ≠ f.parent? c) (h3 : cx.parent ∉ HTree.handles t)
+    (h4 : x ∉ HTree.handles t) :
+    ∃ cx', (f.prepend p c).1.ctx? x = some cx' ∧ cx'.shape = cx.shape :=
+  prepend_frame_all inv hok hgc hx h1 h2 h3 h4
+
+theorem C05_pair_frame_insertAfter {f : Forest} {r c q : Nat} {t : HTree} (inv : f.Inv)
+    (hok : (f.insertAfter r c).2 = .ok) (hgc : f.get? c = some t) (hq : f.parent? r = some q)
+    {x : Nat} {cx : HTree.Ctx} (hx : f.ctx? x = some cx)
+    (h1 : cx.parent ≠ q) (h2 : some cx.parent ≠ f.parent? c) (h3 : cx.parent ∉ HTree.handles t)
+    (h4 : x ∉ HTree.handles t) :
+    ∃ cx', (f.insertAfter r c).1.ctx? x = some cx' ∧ cx'.shape = cx.shape :=
+  insertAfter_frame_all inv hok hgc hq hx h1 h2 h3 h4
+
+theorem C05_pair_frame_insertBefore {f : Forest} {r c q : Nat} {t : HTree} (inv : f.Inv)
+    (hok : (f.insertBefore r c).2 = .ok) (hgc : f.get? c = some t) (hq : f.parent? r = some q)
+    {x : Nat} {cx : HTree.Ctx} (hx : f.ctx? x = some cx)
+    (h1 : cx.parent ≠ q) (h2 : some cx.parent ≠ f.parent? c) (h3 : cx.parent ∉ HTree.handles t)
+    (h4 : x ∉ HTree.handles t) :
+    ∃ cx', (f.insertBefore r c).1.ctx? x = some cx' ∧ cx'.shape = cx.shape :=
+  insertBefore_frame_all inv hok hgc hq hx h1 h2 h3 h4
+
+theorem C05_pair_frame_remove {f : Forest} {n : Nat} {t : HTree} (inv : f.Inv)
+    (hg : f.get? n = some t) {x : Nat} {cx : HTree.Ctx} (hx : f.ctx? x = some cx)
+    (h1 : some cx.parent ≠ f.parent? n) (h3 : cx.parent ∉ HTree.handles t) (h4 : x ∉ HTree.handles t) :
+    ∃ cx', (f.remove n).1.ctx? x = some cx' ∧ cx'.shape = cx.shape :=
+  remove_frame_all inv hg hx h1 h3 h4
+
+/-- Non-vacuity on a forest WITH adjacent text nodes: `<e>a b c d</e>` (four text nodes) and
+    `<g><h/>k</g>`; `insert_after(c, b)` merges `a`/`c` and `b` into one node — the element `h` and the
+    text `k` under `g` keep parent, value and siblings. -/
+example :
+    let f : Forest := { selfMergeWitness with
+      roots := selfMergeWitness.roots ++ [.node 5 (.element 6) [.node 6 (.element 3) [], .node 7 (.text ['k']) []]],
+      next := 8 }
+    f.inv = true ∧ (f.insertAfter 3 2).2 = .ok ∧ f.parent? 3 = some 0 ∧ f.parent? 2 = some 0 ∧
+      (f.ctx? 6).map HTree.Ctx.shape = some (5, [], .element 3, [7]) ∧
+      ((f.insertAfter 3 2).1.ctx? 6).map HTree.Ctx.shape = some (5, [], .element 3, [7]) ∧
+      ((f.insertAfter 3 2).1.ctx? 7).map HTree.Ctx.shape = (f.ctx? 7).map HTree.Ctx.shape := by
   decide
 
 end XotModel.Props
